@@ -34,6 +34,8 @@ def denote(slot, a, per_function):
         return 0
     if per_function == 'modules':
         return 10 * MODULE_OF.get(slot, slot) + a
+    if per_function == 'aliases':
+        return a                   # every function spells it differently, all spellings denote the same object
     return 10 * slot + a if per_function else a
 
 
@@ -51,6 +53,12 @@ class AnnWorld:
             m = MODULE_OF.get(slot, slot)
             g = self.modules.setdefault(m, {'A%d' % a: absig.AN[10 * m + a] for a in (1, 2)})
             return absig.make_func(ps, name='f%d' % slot, future=self.future, ret=ret, share_globals=g)
+        if self.per_function == 'aliases':
+            # own globals per function; annotation i is spelled A<i + 2*(slot-1)> there and bound to the SAME object in all of them
+            off = 2 * (slot - 1)
+            g = {'A%d' % (a + off): absig.AN[a] for a in (1, 2)}
+            ps = [dict(p, an=p['an'] + off) if p['an'] else p for p in ps]
+            return absig.make_func(ps, name='f%d' % slot, extra_globals=g, future=self.future, ret=('A%d' % (int(ret[1:]) + off) if ret else None))
         g = {'A%d' % a: absig.AN[denote(slot, a, self.per_function)] for a in (1, 2)}
         if ret:
             return absig.make_func(ps, name='f%d' % slot, extra_globals=g, future=self.future, ret=ret)
@@ -188,7 +196,7 @@ def gen(UM, seed, n):
         k = 0
         for _ in range(n):
             op = rnd.choice(['merge', 'merge', 'merge3', 'embed', 'mask', 'forwards'])
-            future, per_function = rnd.random() < 0.75, rnd.choice([True, True, 'modules', 'modules', False])
+            future, per_function = rnd.random() < 0.75, rnd.choice([True, True, 'modules', 'modules', False, 'aliases'])
             ar = {'merge': 2, 'merge3': 3, 'embed': 2, 'mask': 1, 'forwards': 2}[op]
             pss = [UM[rnd.randrange(len(UM))] for _ in range(ar)]
             if op == 'forwards' and not alggen.has_star(pss[0]):
